@@ -237,6 +237,16 @@ def run_index(case, ctx, rng):
                 w[p] = (v >> j) & 1
             Z = B(*a); r = call(Z.__setitem__, L, B(v, len(L)))
             ctx.check('setitem', not is_exc(r) and (Z.ival, Z.size) == fl(w), r if is_exc(r) else vs(Z), fl(w), idx=L, v=v, **det)
+    # the assigned value is the target itself (in-place permutations)
+    if n:
+        perms = [('[::-1]', slice(None, None, -1), list(range(n))[::-1]), ('rot', [(i + 1) % n for i in range(n)], [(i + 1) % n for i in range(n)]),
+                 ('swap-halves', list(range(n // 2, n)) + list(range(0, n // 2)), list(range(n // 2, n)) + list(range(0, n // 2))), ('[:]', slice(None), list(range(n)))]
+        for name, idx, sel in perms:
+            Z = B(*a); r = call(Z.__setitem__, idx, Z)
+            w = list(bits)
+            for j, p in enumerate(sel):
+                w[p] = bits[j]
+            ctx.check('setitem', not is_exc(r) and (Z.ival, Z.size) == fl(w), r if is_exc(r) else vs(Z), fl(w), idx=name, v='the vector itself', **det)
     ctx.check('operand-unchanged', (A.ival, A.size) == a, (A.ival, A.size), a)
 
 PAT = [lambda r, n: r.getrandbits(n) if n else 0, lambda r, n: 0, lambda r, n: M(n), lambda r, n: (1 << r.randrange(n)) if n else 0]
